@@ -1900,10 +1900,9 @@ impl Bgi {
             }
 
             match self.button_style.orientation {
-                LabelOrientation::Above => todo!(),
-                LabelOrientation::Left => todo!(),
-                LabelOrientation::Right => todo!(),
-                LabelOrientation::Below => todo!(),
+                LabelOrientation::Above | LabelOrientation::Left | LabelOrientation::Right | LabelOrientation::Below => {
+                    log::error!("RIP button label orientation is not implemented");
+                }
 
                 LabelOrientation::Center => {
                     let old_col = self.get_color();
